@@ -34,6 +34,10 @@ class Ctx:
         self._translators = {}
         self._lock = threading.Lock()
         self.quick = tier == 'quick'
+        global TMPROOT
+        TMPROOT = os.path.join(self.scratch, 'tmp')
+        os.makedirs(TMPROOT, exist_ok=True)
+        os.environ['TMPDIR'] = TMPROOT    # compilers and every other child of this run as well
 
     def cleanup(self):
         shutil.rmtree(self.scratch, ignore_errors=True)
@@ -135,7 +139,18 @@ def _parse_json(text):
         return None
 
 
+TMPROOT = None   # set by Ctx: per-run directory for the temporary files of solver processes
+
+
 def _run_proc(cmd, timeout, cwd=None, mem_gb=12):
+    # every solver process gets its own TMPDIR below the run's scratch directory: cbmc leaves its external-sat CNF file
+    # (up to GBs) behind when the process is killed because another back end answered first; the directory is removed
+    # as soon as the portfolio is decided (and with the scratch directory at the latest)
+    import tempfile
+    root = TMPROOT or '/var/tmp'
+    os.makedirs(root, exist_ok=True)
+    tmpd = tempfile.mkdtemp(prefix='solver_', dir=root)
+    env = dict(os.environ, TMPDIR=tmpd)
     def pre():
         os.setsid()
         try:
@@ -145,7 +160,8 @@ def _run_proc(cmd, timeout, cwd=None, mem_gb=12):
         except Exception:
             pass
     p = subprocess.Popen(cmd, stdout=subprocess.PIPE, stderr=subprocess.PIPE, text=True, cwd=cwd,
-                         preexec_fn=pre)
+                         preexec_fn=pre, env=env)
+    p.vh_tmpdir = tmpd
     return p
 
 
@@ -211,6 +227,8 @@ def run_portfolio(job, trace_prop=None, timeout=None, backends=None):
     for b, p in procs.items():
         if readers[b].is_alive():
             _kill(p)
+    for b, p in procs.items():
+        shutil.rmtree(getattr(p, 'vh_tmpdir', ''), ignore_errors=True)
     wall = time.time() - t0
     if winner is None:
         why = 'timeout %ds' % timeout if not errors or len(errors) < len(backends) else 'error'
